@@ -1,5 +1,7 @@
 import JrsVerif.Common.J
 import JrsVerif.Model.Str
+import JrsVerif.Model.StrBytes
+import JrsVerif.Model.JsonR
 
 namespace JrsVerif.Drv.C11
 open Lean JrsVerif.J JrsVerif.Str
@@ -138,9 +140,40 @@ def specCall (fn : String) (a : List V) : R :=
   | "base64Decode", [.str s] => ofOpt (((Spec.b64Dec s).bind dec).map V.str)
   | _, _ => .err
 
+/-- the byte slices a `str` method returned, read back as strings -/
+def decAll (l : List (List Nat)) : Option (List (List Nat)) := l.mapM dec
+
+def bytesStr (o : Option (List Nat)) : R := ofOpt ((o.bind dec).map V.str)
+
 /-- functions with a separate code-shaped model; everything else has one definition only -/
 def modelCall (fn : String) (a : List V) : R :=
   match fn, a with
+  | "length", [.str s] => .ok (.num (Model.lengthBytes s))
+  | "isEmpty", [.str s] => .ok (.bool (Model.isEmptyBytes s))
+  | "endsWith", [.str x, .str y] => .ok (.bool (Model.endsWith x y))
+  | "split", [.str s, .str c] =>
+    if c.isEmpty then .undef "split: empty separator"
+    else ofOpt ((decAll (Model.splitLimitBytes s c none)).map strs)
+  | "splitLimit", [.str s, .str c, .num n] =>
+    match limit? n with
+    | none => .err
+    | some lim =>
+      if c.isEmpty then .undef "split: empty separator"
+      else ofOpt ((decAll (Model.splitLimitBytes s c lim)).map strs)
+  | "splitLimitR", [.str s, .str c, .num n] =>
+    match limit? n with
+    | none => .err
+    | some lim =>
+      if c.isEmpty then .undef "split: empty separator"
+      else ofOpt ((decAll (Model.splitLimitRBytes s c lim)).map strs)
+  | "strReplace", [.str s, .str f, .str t] => bytesStr (Model.strReplaceBytes s f t)
+  | "trim", [.str s] => .ok (.str (Model.trim s))
+  | "stringChars", [.str s] => ofOpt ((Model.stringChars s).map strs)
+  | "escapeStringJson", [.str s] => bytesStr (some (Model.escapeJsonBytes s))
+  | "escapeStringPython", [.str s] => bytesStr (some (Model.escapeJsonBytes s))
+  | "escapeStringXML", [.str s] => bytesStr (some (Model.escapeXmlBytes s))
+  | "escapeStringBash", [.str s] => bytesStr (some (Model.escapeBashBytes s))
+  | "escapeStringDollars", [.str s] => bytesStr (some (Model.escapeDollarsBytes s))
   | "substr", [.str s, .num f, .num l] =>
     match usize? f, usize? l with
     | some f, some l => .ok (.str (Model.substr s f l))
@@ -153,9 +186,9 @@ def modelCall (fn : String) (a : List V) : R :=
   | "asciiUpper", [.str s] => ofOpt ((dec (Model.asciiUpperBytes s)).map V.str)
   | "asciiLower", [.str s] => ofOpt ((dec (Model.asciiLowerBytes s)).map V.str)
   | "equalsIgnoreCase", [.str x, .str y] => .ok (.bool (Model.equalsIgnoreCase x y))
-  | "parseInt", [.str s] => ofOpt ((Model.parseInt s).map V.num)
-  | "parseOctal", [.str s] => ofOpt ((Model.parseNat 8 s).map (fun v => V.num v))
-  | "parseHex", [.str s] => ofOpt ((Model.parseNat 16 s).map (fun v => V.num v))
+  | "parseInt", [.str s] => ofOpt ((Model.parseIntX s).map V.num)
+  | "parseOctal", [.str s] => ofOpt ((Model.parseNatX 8 s).map (fun v => V.num v))
+  | "parseHex", [.str s] => ofOpt ((Model.parseNatX 16 s).map (fun v => V.num v))
   | _, _ => .undef "no separate model"
 
 def handle (op : String) (j : Json) : Option Json :=
@@ -180,6 +213,13 @@ def handle (op : String) (j : Json) : Option Json :=
       -- one definition only: served as spec too, so that a panic counts against the implementation
       some (obj [("spec", obj [("ok", showV (.str body))]), ("model", obj [("ok", showV (.str body))])])
     | _ => some (bad "dbg.trunc: parse")
+  | "str.json" =>
+    -- std.parseJson accept/reject against the independent RFC 8259 reader of C05 (Model/JsonR.lean)
+    match arr? j "b" with
+    | some a =>
+      let bytes : List UInt8 := (nats a).map UInt8.ofNat
+      some (obj [("spec", obj [("accept", .bool (JrsVerif.Json.read bytes).isSome)])])
+    | none => some (bad "str.json: parse")
   | "str.ext" =>
     some (obj [("skip", .bool true),
                ("_why", .str "digests / parseJson / parseYaml: compared with python hashlib / json / PyYAML by checks/props/C11.py (observation)")])
